@@ -27,6 +27,7 @@ def run_seed(seed, props):
             confirmed = [l for l in viol if 'no-failing-input-found' not in l]
             failed = [l.strip()[:220] for l in out.splitlines() if l.strip().startswith('failed obligation') or l.strip().startswith('translate failure')]
             res[p] = {'exit': rc, 'violations': len(viol), 'with_replayed_input': len(confirmed), 'first': failed[:3]}
+            if rc not in (0, 1): res[p]['tail'] = out[-600:]
     finally:
         sh(['git', '-C', '/repo', 'worktree', 'remove', '--force', wt])
         shutil.rmtree(wt, ignore_errors=True); shutil.rmtree(vd, ignore_errors=True)
